@@ -137,6 +137,10 @@ class Fault(Exception):
     pass
 
 
+class TransientFault(TimeoutError):
+    """an OSError subclass: what a collision checker talking to a simulator raises on a hiccup"""
+
+
 class Env:
     """Callbacks of one run. `fault` = None or dict(target, kind, place, k / region)."""
 
@@ -165,6 +169,8 @@ class Env:
         kind = self.fault["kind"]
         if kind == "raise":
             raise Fault("injected")
+        if kind == "oserror":
+            raise TransientFault("injected transient failure")
         if kind == "none":
             return None
         if kind == "int":
@@ -249,7 +255,7 @@ def run_scenario(sc, fault=None, as_false=False, with_distance=False):
             p = RRTConnect(sc["step"], sc["bias"], pd, cfg)
         else:
             p = PRM(sc["prm_timeout"], sc["step"], pd, cfg)
-    except Fault:
+    except (Fault, TransientFault):
         raise
     except Exception as e:  # noqa: BLE001
         return env, [(str(e), [], [])], space
@@ -269,7 +275,7 @@ def run_scenario(sc, fault=None, as_false=False, with_distance=False):
                 calls.append(("ok", [[bits(c) for c in flatten(s, [])] for s in states], states))
             else:
                 raise ValueError(op)
-        except Fault:
+        except (Fault, TransientFault):
             raise
         except Exception as e:  # planning errors arrive as plain Exception(text)
             calls.append((str(e), [], []))
@@ -500,13 +506,16 @@ def wrappers(cases, rep):
 
 def c20(inp, rep):
     kmax = inp["k_max"]
-    kinds = ["raise", "none", "int", "str"]
+    kinds = ["raise", "none", "int", "str", "oserror"]
     for sc in inp["scenarios"]:
         # fault region: the first obstacle predicate's neighbourhood if any, else around the goal
         region = (sc["obstacles"] or sc["goal"]["preds"])[0]
         placements = [("valid", {"place": "region", "region": sc["goal"]["preds"][0]}), ("goal", {"place": "region", "region": sc["goal"]["preds"][0]})]
         if sc["obstacles"]:
             placements.append(("valid", {"place": "region", "region": widen(region)}))
+        # the validity callback fails on the start state itself (every solve re-validates it)
+        x0 = flatten(mk_state(sc["variant"], sc["start"]), [])
+        placements.append(("valid", {"place": "region", "region": {"k": "sq", "idx": list(range(len(x0))), "c": x0, "r2": 1e-18}}))
         # quick tier: multi-call histories and goals with distance_goal get the region faults and k < 3 only
         light = inp.get("tier") == "quick"
         is_hist = "/h-" in sc["id"]
@@ -533,7 +542,7 @@ def c20(inp, rep):
                     det = {"scenario": {k: sc[k] for k in ("id", "variant", "planner", "seed")}, "fault": {"target": target, "kind": kind, "placement": place, "goal_implements_distance_goal": with_d}}
                     try:
                         env, calls, _ = run_scenario(sc, fault, with_distance=with_d)
-                    except Fault:
+                    except (Fault, TransientFault):
                         rep.violate("%s|%s|exception-escaped" % (sc["planner"], target), "the injected Python exception propagated out of the planner call instead of being treated as False", det)
                         continue
                     except Exception as e:  # noqa: BLE001
@@ -548,7 +557,7 @@ def c20(inp, rep):
                         rep.count("fault_runs_with_path")
                     cls = "%s|%s-callback|%s" % (sc["planner"], target, kind) + ("|goal-with-distance_goal" if with_d else "")
                     if res != ref_res or pbits_all != ref_bits:
-                        rep.violate(cls + "|differs-from-returning-False", "a %s callback that %s does not behave like one returning False (results %r vs %r)" % (target, {"raise": "raises", "none": "returns None", "int": "returns 1", "str": "returns 'x'"}[kind], res, ref_res), det)
+                        rep.violate(cls + "|differs-from-returning-False", "a %s callback that %s does not behave like one returning False (results %r vs %r)" % (target, {"raise": "raises", "none": "returns None", "int": "returns 1", "str": "returns 'x'", "oserror": "raises TimeoutError"}[kind], res, ref_res), det)
                         continue
                     if env.valid_calls != ref_env.valid_calls or env.valid_hash != ref_env.valid_hash:
                         rep.count("traces_differing_from_returning_False")  # information only: the statement is about the result
